@@ -14,11 +14,24 @@ PM = None
 
 def _apply(chunk):
     from . import calls
+    cov = None
+    if os.environ.get("VERIF_COVERAGE"):
+        # analysis aid (tools/covreport.py): which lines / branches of the library do the vectors of a check reach
+        import coverage
+        from . import lanes
+        cov = coverage.Coverage(data_file=os.path.join(os.environ["VERIF_COVERAGE"], "cov"), data_suffix=True, branch=True,
+                                include=[os.path.join(lanes.REPO, "src", "pyModeS", "*")])
+        cov.start()
     out = []
-    for line in chunk:
-        v = json.loads(line)
-        v["res"] = calls.apply(PM, v)
-        out.append(json.dumps(v, separators=(",", ":")))
+    try:
+        for line in chunk:
+            v = json.loads(line)
+            v["res"] = calls.apply(PM, v)
+            out.append(json.dumps(v, separators=(",", ":")))
+    finally:
+        if cov is not None:
+            cov.stop()
+            cov.save()
     return out
 
 
